@@ -267,20 +267,36 @@ func WorkerMain(t *testing.T, worldName string, world World) {
 		if res.Violation != nil {
 			sig := res.Violation.Signature()
 			full := append([]uint32(nil), c.Trace...)
-			test := func(cand []uint32) bool {
+			tries := envInt("VERIF_REPRO_TRIES", 1)
+			runOnce := func(cand []uint32, full bool) *RunResult {
 				rc := ReplayChoices(cand)
-				rc.Limit = len(full)*2 + 1000
-				r := world(t, prop, tier, rc, false)
-				return r.Violation != nil && r.Violation.Signature() == sig && !isKnown(r.Violation)
+				rc.Limit = len(cand)*2 + 2000
+				return world(t, prop, tier, rc, full)
+			}
+			test := func(cand []uint32) bool {
+				for k := 0; k < tries; k++ {
+					r := runOnce(cand, false)
+					if r.Violation != nil && r.Violation.Signature() == sig && !isKnown(r.Violation) {
+						return true
+					}
+				}
+				return false
 			}
 			shrinkExec := envInt("VERIF_SHRINK_EXECS", 3000)
 			shrinkSec := envInt("VERIF_SHRINK_SEC", 60)
 			min, execs := Shrink(full, test, shrinkExec, time.Duration(shrinkSec)*time.Second)
-			final := world(t, prop, tier, ReplayChoices(min), true)
-			if final.Violation == nil || final.Violation.Signature() != sig {
-				// minimised sequence does not reproduce: fall back to the full one
-				min = full
-				final = world(t, prop, tier, ReplayChoices(min), true)
+			var final *RunResult
+			for _, cand := range [][]uint32{min, full} {
+				for k := 0; k < tries*5; k++ {
+					final = runOnce(cand, true)
+					if final.Violation != nil && final.Violation.Signature() == sig {
+						break
+					}
+				}
+				if final.Violation != nil && final.Violation.Signature() == sig {
+					min = cand
+					break
+				}
 			}
 			f := &Failure{RunIndex: i, Seed: seed, Violation: final.Violation, FullChoices: full, MinChoices: min,
 				ShrinkExecs: execs, LogHash: final.LogHash, Log: final.Log, Desc: final.Desc}
